@@ -62,6 +62,27 @@ def gen_query(rnd, f, single_metric_model=True):
     return dict(dims=dims, mets=mets, filters=filters)
 
 
+def gen_mixed_query(rnd, f):
+    """a base-model metric with the other models referenced in the order [fan-out child, non-fan-out parent] (or the reverse): the
+    fan-out verdict must be accumulated over ALL joined models, whichever comes last.  None when the forest has no such triple."""
+    names = [m["name"] for m in f["models"]]
+    for (c, p, ty, _) in rnd.sample(list(f["links"]), len(f["links"])):
+        if ty != "m2o":
+            continue
+        # base = p (its child c fans it out); a non-fan-out neighbour of p: p's own parent, or a one-to-one partner
+        ups = [l[1] for l in f["links"] if l[0] == p] + [l[0] for l in f["links"] if l[1] == p and l[2] == "o2o" and l[0] != c]
+        if not ups:
+            continue
+        x, y, b = names[c], names[rnd.choice(ups)], names[p]
+        order = [x, y] if rnd.random() < 0.8 else [y, x]
+        agg = rnd.choice(["sum", "count", "avg", "sum"])
+        mets = [(b, agg, None if agg == "count" else jg.jcol("c0"), [])]
+        if rnd.random() < 0.5:
+            return dict(dims=[(b, jg.jcol("s0"))], mets=mets, filters=[(m, ("not", ("isnull", jg.jcol("id")))) for m in order])
+        return dict(dims=[(m, jg.jcol("s0")) for m in order], mets=mets, filters=[])
+    return None
+
+
 def field_names(q):
     """unique dimension / metric names per model; returns (dims_by_model, metrics_by_model, dim refs, metric refs)"""
     dbm, mbm, drefs, mrefs = {}, {}, [], []
@@ -118,7 +139,8 @@ def run(c):
     cases = []
     for _ in range(n):
         f = jg.gen_forest(c.rng)
-        cases.append((f, gen_query(c.rng, f, single_metric_model=c.rng.random() < 0.7)))
+        q = gen_mixed_query(c.rng, f) if c.rng.random() < 0.25 else None
+        cases.append((f, q or gen_query(c.rng, f, single_metric_model=c.rng.random() < 0.7)))
     cf = jg.corpus_forest()
     cases[:0] = [
         (cf, dict(dims=[("mb", jg.jcol("s0"))], mets=[("ma", "sum", jg.jcol("c0"), [])], filters=[])),                       # K1: non-base metric through many_to_one
@@ -156,6 +178,10 @@ def run(c):
             stats["rejected"] += 1
             if err is None:
                 fid_bad.append({"forest": f, "query": q, "model": "REJECTED", "impl": "compiled"})
+                # the code now answers a query the modelled planner refuses: is the answer right?  (the failing-input search)
+                if s_line and s_line != "REJECTED" and not compare(q, rows, sg.parse_show(s_line), set()):
+                    c.violation("a query the modelled planner refuses (fan-out with a non-decomposable aggregate) is now answered, and wrongly",
+                                {"kind": "case", "forest": f, "query": q, "impl_rows": [list(map(str, r)) for r in rows[:10]], "spec_rows": s_line[:700], "sql": sql[-900:]})
             continue                              # rejected with an error: allowed
         if err is not None:
             stats["impl_error"] += 1
